@@ -25,14 +25,35 @@ Content(keys, vals, hasvals, o4, bigLatch) ==
       valset |-> IF hasvals THEN {vals[i] : i \in 1..n} ELSE {NilV},
       loaded |-> FALSE, stat |-> <<>>, lastk |-> <<>>, lastq |-> <<>>, lastrender |-> <<>>]
 
-\* NewSlimTrie: rejected with the out-of-order error iff the keys are not
-\* strictly ascending; otherwise the instance holds the built content.
-NewOutcome(keys) == IF StrictAsc(keys) THEN "" ELSE "order"
+\* NewSlimTrie is all-or-nothing (C08):
+\*   "order"    the keys are not strictly ascending: rejected, no trie
+\*   "toolong"  ascending, but without InnerPrefix a single-branch run does not
+\*              fit the step counter (2^StepBits half-bytes): rejected rather than
+\*              built into an index that cannot find its own keys
+\*   ""         accepted: the instance holds the built content
+MaxDocKeyLen == 16384
+WithinDocLimits(keys) == \A i \in 1..Len(keys) : Len(keys[i]) <= MaxDocKeyLen
 
-New(keys, vals, hasvals, o4) ==
-  IF NewOutcome(keys) = ""
-  THEN inst' = Content(keys, vals, hasvals, o4, TRUE)
-  ELSE inst' = NoInst
+NewOutcome(keys, c) ==
+  IF ~StrictAsc(keys) THEN "order"
+  ELSE IF ~c.o.innp /\ ~StepsFit(c.nodes) THEN "toolong"
+  ELSE ""
+
+\* Layer P of C08 on a logged outcome: what the PROPERTY allows
+OutcomeAllowed(keys, err, pan) ==
+  IF ~StrictAsc(keys) THEN err = "order" /\ pan = ""
+  ELSE IF WithinDocLimits(keys) THEN err = "" /\ pan = ""
+  ELSE err # "order" /\ pan = ""      \* beyond the documented limits: accept or refuse, never crash
+
+\* Where the property allows either outcome (input beyond the documented limits)
+\* the state follows what the implementation did: `accepted` is the logged
+\* outcome.  A non-ascending list never yields an instance.
+New(keys, vals, hasvals, o4, accepted) ==
+  inst' = IF accepted /\ StrictAsc(keys) THEN Content(keys, vals, hasvals, o4, TRUE) ELSE NoInst
+
+\* the Model's own prediction of the outcome (Layer M)
+ModelAccepts(keys, vals, hasvals, o4) ==
+  StrictAsc(keys) /\ NewOutcome(keys, Content(keys, vals, hasvals, o4, TRUE)) = ""
 
 \* Marshal followed by Unmarshal into a fresh instance: the same content
 LoadOwn == inst.live /\ inst' = [inst EXCEPT !.loaded = TRUE]
